@@ -806,3 +806,41 @@ var rangePanicCallees = map[string]bool{
 	"(github.com/cosmos/cosmos-sdk/types.Coin).Sub":  true,
 	"github.com/cosmos/cosmos-sdk/types.NewCoin":     true, // panics on a negative amount
 }
+
+// triageLookup finds the triage entry of an origin key. The message text of a locally built error is part of the key (it
+// tells the entries of one function apart for the reader), but it is not what the entry is about: when the exact key is not
+// listed, an entry of the same function, kind and constructor whose text differs is used, each such entry at most once. The
+// key under which the origin is then reported is the entry's, so that known findings and evidence keep their names.
+func triageLookup(table map[string]triage, key string, used map[string]bool) (triage, string, bool) {
+	if t, ok := table[key]; ok {
+		used[key] = true
+		return t, key, true
+	}
+	norm := func(k string) string {
+		i := strings.Index(k, " \"")
+		if i < 0 {
+			return ""
+		}
+		j := strings.LastIndex(k, "\"")
+		if j <= i {
+			return ""
+		}
+		return k[:i] + k[j+1:]
+	}
+	n := norm(key)
+	if n == "" || !strings.Contains(key, "# err-local:") {
+		return triage{}, key, false
+	}
+	var cands []string
+	for k := range table {
+		if !used[k] && norm(k) == n {
+			cands = append(cands, k)
+		}
+	}
+	sort.Strings(cands)
+	if len(cands) == 0 {
+		return triage{}, key, false
+	}
+	used[cands[0]] = true
+	return table[cands[0]], cands[0], true
+}
